@@ -203,8 +203,9 @@ pub fn alphabet_stream(j: u64, dynamic: bool, deep: bool, r: &mut Rng) -> (Vec<u
         let mut cfg = GenCfg::random(r, 0);
         cfg.max_code_len = 15;
         cfg.code_shape = if deep { 2 } else { 0 };
+        cfg.slack = false;
         let (ll, dl) = gen::dynamic_lengths_for(r, &toks, &cfg);
-        gen::write_dynamic_header(r, &mut w, &ll, &dl, cfg.slack, false);
+        gen::write_dynamic_header(r, &mut w, &ll, &dl, false, false);
         let (llc, dlc) = (gen::canon_codes(&ll), gen::canon_codes(&dl));
         gen::write_tokens(&mut w, &toks, &ll, &llc, &dl, &dlc);
     } else {
@@ -436,6 +437,7 @@ impl Monitor for C07 {
             let j = k % 256;
             let (d, plain, pairs) = alphabet_stream(j, dynamic, deep, &mut r);
             let before = ctx.violations;
+            let accepted_before = *ctx.counters.get("parse_and_rewrite:ok").unwrap_or(&0);
             Self::judge(
                 &d,
                 Some(Truth {
@@ -447,7 +449,8 @@ impl Monitor for C07 {
                 ctx,
                 false,
             );
-            if ctx.violations == before {
+            let accepted = *ctx.counters.get("parse_and_rewrite:ok").unwrap_or(&0) > accepted_before;
+            if ctx.violations == before && accepted {
                 ctx.count_n(if deep { "alphabet_pairs_dynamic_deep" } else if dynamic { "alphabet_pairs_dynamic" } else { "alphabet_pairs_fixed" }, pairs);
             }
             return;
